@@ -181,6 +181,13 @@ def panic_census(ctx, rule, bodies, scope):
         row = PANIC_TABLE.get((fn, kind))
         if row is None:
             for b, blk, detail in lst:
+                # Ident::new / parse_quote! on a compile-time constant cannot fail at run time,
+                # wherever the call is placed (a helper extracted from a generator needs no row)
+                if kind in ("ident-new", "parse-quote"):
+                    ok, what = const_input(ctx, b, blk, kind)
+                    if ok:
+                        ctx.ob(rule + ".const-input", fn, kind, True, "constant input: %s" % what)
+                        continue
                 ctx.ob(rule + ".unlisted", fn, "%s %s" % (kind, detail), False,
                        "panic-capable construct without a table row; path condition: %s" % (ctx.pc_strs(b, blk),))
             continue
